@@ -172,8 +172,11 @@ class Contract:
             if c[3] in exclude:
                 continue
             only = c[4].get('only')
-            if only and only != mode:
-                continue
+            if only:
+                # enforce | replace (any caller) | replace-ghost (callers that use the ghost bookkeeping) | replace-pure (callers that do not)
+                ok = (only == mode) or (only == 'replace' and mode.startswith('replace'))
+                if not ok:
+                    continue
             if c[4].get('tier') == 'thorough' and TIER != 'thorough' and mode == 'enforce':
                 continue
             out.append('#line %d "%s"' % (c[1], self.path))
@@ -268,6 +271,11 @@ def emit_constants(proj, cls, own, real='double', report=None):
     return '\n'.join(out)
 
 
+def member_class_types(proj, cls, real='double'):
+    ci = proj.classinfo(cls, real)
+    return sorted(set(typ for nm, (typ, arr, mut) in ci.members.items() if re.match(r'^[A-Z]\w*$', typ)))
+
+
 def emit_struct(proj, cls, real='double', opaque_types=()):
     """R11: struct for `this`, generated from the member declarations of the class header."""
     ci = proj.classinfo(cls, real)
@@ -338,7 +346,7 @@ class Extracted:
 
 
 def extract_function(proj, fi, functable, real='double', srcrel=None, select=None, report=None,
-                     contract=None, extra_members_cls=None, static_inline=False, exclude_clauses=()):
+                     contract=None, extra_members_cls=None, static_inline=False, exclude_clauses=(), own_cls=None):
     """Returns Extracted with .text (C definition incl. contract), .meta (file, lines, sha)"""
     cls = fi.cls
     report = report or X.Report()
@@ -393,11 +401,21 @@ def extract_function(proj, fi, functable, real='double', srcrel=None, select=Non
     b = tr.rule_statics(b)
     if fi.is_method:
         ci = proj.classinfo(extra_members_cls or cls, real)
+        # R19c: a method called on a data member of class type:  _m.f(args)  ->  T::f(VERIF_OBJ(_m), args)
+        for nm, (typ, arr, mut) in ci.members.items():
+            if re.match(r'^[A-Z]\w*$', typ):
+                b, n = re.subn(r'(?<![\w.>])' + nm + r'\s*\.\s*(\w+)\s*\(\s*\)', typ + r'_\1(VERIF_OBJ(' + nm + '))', b)
+                b, n2 = re.subn(r'(?<![\w.>])' + nm + r'\s*\.\s*(\w+)\s*\(', typ + r'_\1(VERIF_OBJ(' + nm + '), ', b)
+                report.hit('R19c.member_object_method_call', n + n2)
         b = tr.rule_members(b, set(ci.members))
     b = tr.rule_refs(b, [p.name for p in fi.params if p.kind == 'ref'])
     b = tr.rule_calls(b, ret, unqualified_cls=cls)
     b = tr.rule_propagate(b, ret)
     b = tr.rule_real(b)
+    if own_cls is not None and cls != own_cls:
+        # helper of another class inlined into this TU: its unqualified class constants are emitted with the class prefix
+        cnames = set(proj.classinfo(cls, real).consts)
+        b = re.sub(r'(?<![\w.>])([A-Za-z_]\w*)\b', lambda m: (cls + '_' + m.group(1)) if m.group(1) in cnames else m.group(1), b)
     ex = Extracted()
     ex.fi = fi
     ex.report = report
@@ -476,9 +494,9 @@ def splice_loops(body, contract):
     return body, n_spliced
 
 
-def callee_decl(fi, contract, exclude=()):
+def callee_decl(fi, contract, exclude=(), ghost=True):
     """prototype + contract clauses of a callee that is replaced by its contract"""
-    return fi.proto() + '\n' + contract.emit_clauses(exclude, mode='replace') + '\n;'
+    return fi.proto() + '\n' + contract.emit_clauses(exclude, mode='replace-ghost' if ghost else 'replace-pure') + '\n;'
 
 
 def raw_def_text(proj, qualname, select=None, srcrel=None):
